@@ -16,11 +16,11 @@ ID = "C10"
 def meta(tier, seed):
     return {
         "rule": "a case = (combination, labels, n_jobs/backend, state, query program, continuation); non-trivial iff the "
-                "continuation contains a training call or arm change (an effect of the queries on learned state can "
-                "only show through later calls); distinct by (state digest, program, continuation)",
+                "continuation contains a training call or arm change, or the complete object graphs of queried copy and twin "
+                "are bit-identical after alignment (which decides all futures); distinct by (state digest, program, continuation)",
         "oracle": "queried copy (streams synchronised onto the twin) and never-queried twin give identical predict / "
                   "predict_expectations on the query set after every continuation; same exception class if a call raises",
-        "bounds": {"bfs_depth": 2 if tier == "quick" else 3, "continuation_depth": 1 if tier == "quick" else 2,
+        "bounds": {"bfs_depth": 2 if tier == "quick" else 3, "continuation_depth": 2,
                    "programs": ["predict(1 row)", "predict_expectations(3 rows)", "predict(3 rows); predict_expectations(1 row)"],
                    "n_jobs": ["1", "2 backend=threading (shared object, task order)", "2 backend=None (isolated workers)"]},
         "assumptions": ["internal caches that no public call can observe (Thompson's last draw, empty LSH buckets) are "
@@ -36,7 +36,7 @@ def shards(tier, seed):
                 if par != "seq" and nn == "none":
                     continue          # no joblib call on the prediction path of plain learning policies
                 out.append({"ln": ln, "nn": nn, "labels": labels, "par": par,
-                            "depth": 2 if tier == "quick" else 3, "cdepth": 1 if tier == "quick" else 2,
+                            "depth": 2 if tier == "quick" else 3, "cdepth": 2,
                             "seed": 9 + seed})
     return A.heavy_first(out)
 
@@ -98,6 +98,16 @@ def judge(mab, cfg, ln, prog, conts, model, acc=None, key=None):
         calls = ("predict_expectations",)
     qs = [None] if cf else [[[0, 0], [1, 1], [2, 2]], [[1, 1]]]
     msgs = []
+    if len(calls) == 2 and canon.digest(subject) == canon.digest(twin):
+        # complete object graphs identical (generator positions were aligned): every future coincides
+        if acc is not None:
+            acc.traces += 1
+            acc.case((key, str(prog), "state-identical"))
+            acc.counters["query programs leaving a bit-identical object graph"] += 1
+            acc.outcome(["identical", str(prog)])
+        return msgs
+    if acc is not None:
+        acc.counters["query programs after which the object graph differs (continuations compared)"] += 1
     for cont in conts:
         s2, t2 = copy.deepcopy(subject), copy.deepcopy(twin)
         bad = None
